@@ -14,6 +14,7 @@ import json
 import os
 
 from . import universe as uni
+from . import faults
 from .apis import RealApi, RefApi
 from .dsl import Interp, Crash, CATCH, UserError, same, first_diff, canon
 from .refmodel import RefState, RefRun
@@ -35,7 +36,7 @@ def viol(clause, facts=None, **detail):
 class StepResult:
     __slots__ = ('op', 'real', 'ref', 'before', 'after', 'real_inv', 'ref_inv',
                  'npoints', 'violations', 'crashed', 'exc', 'bf_paths',
-                 'ref_run', 'skipped', 'answers')
+                 'ref_run', 'skipped', 'answers', 'fault')
 
     def __init__(self, op):
         self.op = op
@@ -50,6 +51,7 @@ class StepResult:
         self.ref_run = None
         self.skipped = False
         self.answers = 0
+        self.fault = None
 
 
 class World:
@@ -117,7 +119,9 @@ class World:
             self.steps.append({'op': 'mut', 'm': m})
         return ok
 
-    def build(self, prog, versions=None, crash_at=None, check_ref=True, hook=None):
+    def build(self, prog, versions=None, crash_at=None, check_ref=True, hook=None, fault=None):
+        """fault: None | {'k': int|None, 'errno': int, 'file': None|['write', n]|['close']}
+        (k None = count the mutating library calls only)."""
         sb = self.sb
         res = StepResult('build')
         step = {'op': 'build', 'prog': prog}
@@ -125,6 +129,8 @@ class World:
             step['versions'] = versions
         if crash_at is not None:
             step['crash'] = crash_at
+        if fault is not None:
+            step['fault'] = fault
         self.steps.append(step)
         versions = versions or {}
         res.before = uni.snap(sb.R)
@@ -138,6 +144,11 @@ class World:
             if hook is not None:
                 hook(api)
             return it.root(api)
+        if fault is not None:
+            faults.install(self.fb)
+            ff = fault.get('file')
+            faults.begin(fault.get('k'), fault.get('errno', 5), it.active_call, tuple(ff) if ff else None)
+            it.fault_sid = faults.fired_call
         try:
             rv = self.FileBuilder.build_versioned(self.cache, BUILD_NAME, versions, root)
             res.real = ('ok', rv)
@@ -152,8 +163,15 @@ class World:
             res.exc = e
             if isinstance(e, UserError) and e is not it.user_exc:
                 res.violations.append(viol('rollback.exception_identity', {'kind': 'UserError'}))
+        finally:
+            if fault is not None:
+                res.fault = faults.end()
         self.transitions += 1
         res.after = uni.snap(sb.R)
+        for c in log.get('contract', ()):
+            res.violations.append(viol('contract.' + c[0], {}, path=c[1], info=c[2:] or None))
+        for sid in it.identity_errors:
+            res.violations.append(viol('contract.exception_identity', {}, call=sid))
         res.real_inv = it.invocations
         res.npoints = it.npoints
         res.bf_paths = log['bf_paths']
@@ -166,27 +184,37 @@ class World:
             V.append(viol('tmpdir.leftover', {'after': 'build'}, left=tmp_after))
 
         # ---- reference model ------------------------------------------------
-        ref_before = self.ref
         rec_before = copy.deepcopy(self.ref.rec)
+        fired = res.fault['fired'] if res.fault else None
         if res.crashed:
             res.ref = ('exc', 'Crash')
+        elif fired and fired[2] is None and res.real[0] == 'exc':
+            # the fault hit outside any build_file/subbuild call (cache
+            # directory, backup store, cache write): the build as a whole fails
+            res.ref = ('exc', res.real[1] if isinstance(res.exc, OSError) else 'OSError')
         else:
-            it2 = Interp(prog, versions, None)
-            try:
-                run = RefRun(self.ref, versions)
-                res.ref_run = run
-                run.mask = self.mask_names
-                rv2 = it2.root(RefApi(sb, run, None, root=True))
-                run.commit()
-                res.ref = ('ok', rv2)
-            except CATCH as e:
-                res.ref = ('exc', type(e).__name__)
-            except AssertionError:
-                # the program left the domain the model defines (it violates a
-                # documented user obligation): only the model-free monitors apply
-                res.ref = ('undefined', None)
+            cands = []
+            if fired and fired[2] is not None:
+                cands.append({fired[2]: (lambda m, e=fault.get('errno', 5): OSError(e, m))})
+            cands.append({})
+            chosen = None
+            for ci, fs in enumerate(cands):
+                out = self._ref_run(prog, versions, fs)
+                if chosen is None:
+                    chosen = (fs, out)
+                if self._agrees(res.real, out[0]) and self._tree_agrees(res, out):
+                    chosen = (fs, out)
+                    break
+            fs, out = chosen
+            res.ref, res.ref_run, res.ref_inv = out
+            if fs:
+                res.fault['modelled_as'] = 'setup failure of call ' + fired[2]
+            elif fired:
+                res.fault['modelled_as'] = 'absorbed (no observable effect)'
+            if res.ref[0] == 'ok':
+                res.ref_run.commit()
+            elif res.ref[0] == 'undefined':
                 self.diverged = True
-            res.ref_inv = it2.invocations
 
         # ---- FOREIGN monitor (C03) ------------------------------------------
         managed = {self.cache_rel}
@@ -211,6 +239,39 @@ class World:
             # reappear), so later oracles are not polluted by it.
             self._adopt_real_tree(res.after)
         return res
+
+    def _ref_run(self, prog, versions, fail_setup):
+        it2 = Interp(prog, versions, None)
+        it2.fail_setup = fail_setup
+        run = None
+        try:
+            run = RefRun(self.ref, versions)
+            run.mask = self.mask_names
+            rv2 = it2.root(RefApi(self.sb, run, None, root=True))
+            ref = ('ok', rv2)
+        except CATCH as e:
+            ref = ('exc', type(e).__name__)
+        except AssertionError:
+            # the program left the domain the model defines (it violates a
+            # documented user obligation): only the model-free monitors apply
+            ref = ('undefined', None)
+        return ref, run, it2.invocations
+
+    @staticmethod
+    def _agrees(real, ref):
+        if real[0] != ref[0]:
+            return False
+        if real[0] == 'exc':
+            return real[1] == ref[1]
+        return same(real[1], ref[1])
+
+    def _tree_agrees(self, res, out):
+        ref, run, _ = out
+        if ref[0] != 'ok' or run is None:
+            return True
+        t = run.fs.as_plain(self.sb.rel)
+        t[self.cache_rel] = ('f', b'<cache>')
+        return self._mask(uni.plain(res.after, self.cache_rel)) == self._mask(t)
 
     def _adopt_real_tree(self, snapshot):
         t = {}
@@ -438,7 +499,7 @@ def run_spec(world, spec, upto=None):
             world.mutate(st['m'])
             out.append(None)
         elif st['op'] == 'build':
-            out.append(world.build(st['prog'], st.get('versions'), st.get('crash')))
+            out.append(world.build(st['prog'], st.get('versions'), st.get('crash'), fault=st.get('fault')))
         elif st['op'] == 'clean':
             out.append(world.clean())
         elif st['op'] == 'note' and 'bulk' in st:
